@@ -2,7 +2,7 @@
    lang/properties.yaml declares for nunavut.lang.c / nunavut.lang.cpp, in file order (Generated/Gen_OptGuard.v is regenerated from
    properties.yaml on every run by the `optguard` translator): an added, removed or renamed option breaks these theorems until it is
    classified (Proved / ProvedGate / PairwiseOnly / NotExercised / NotCodec). *)
-From Verif Require Import TargetsC03 OptGuard Gen_OptGuard.
+From Verif Require Import TargetsC03 OptGuard Gen_OptGuard Gen_C03Opt.
 From Verif Require TplTieBase TplTie.
 From Coq Require Import List String.
 
@@ -10,6 +10,24 @@ Theorem c_options_classified : map (fun x => s2n (fst x)) c_option_coverage = ma
 Proof. vm_compute. reflexivity. Qed.
 
 Theorem cpp_options_classified : map (fun x => s2n (fst x)) cpp_option_coverage = map fst cpp_defaults.
+Proof. vm_compute. reflexivity. Qed.
+
+(* WHETHER an option reaches the (de)serialization code is DERIVED from the regenerated scan of the codec templates
+   (Generated/Gen_C03Opt.v, translator `c03opt`: direct `options.<key>` mentions in the (de)serialization / definitions / support
+   templates, and filters / tests applied there whose implementation reads the option with get_option): every row of the
+   classification says `reaches_codec` exactly when the scan found a use - so "no codec influence" is never a hand claim, and
+   e.g. cast_format (through the `literal` filter that renders the saturation bounds) and ctor_convention (through
+   `default_construction` in the C++ deserializer) cannot be labelled declaration-only *)
+Definition rows_agree (tbl : list (string * coverage)) (uses : list (string * list string)) : bool :=
+  Nat.eqb (List.length tbl) (List.length uses) &&
+  forallb (fun p => String.eqb (fst (fst p)) (fst (snd p)) &&
+                    Bool.eqb (reaches_codec (snd (fst p))) (negb (match snd (snd p) with [] => true | _ => false end)))
+          (combine tbl uses).
+
+Theorem c_coverage_matches_scan : rows_agree c_option_coverage c_codec_option_uses = true.
+Proof. vm_compute. reflexivity. Qed.
+
+Theorem cpp_coverage_matches_scan : rows_agree cpp_option_coverage cpp_codec_option_uses = true.
 Proof. vm_compute. reflexivity. Qed.
 
 (* the values the modelled option can take are the documented ones: target_endianness in {any, big, little} *)
